@@ -698,6 +698,15 @@ Proof.
   intros k1 k2 H1 H2 E. destruct (Hk k1 k2 H1 H2 E) as [Q X]. rewrite (key_eq_same k1 k2 Q X). reflexivity.
 Qed.
 
+Example refines_pyval_hyps_satisfiable :
+  let ops := [FKeyed MSet {| a_key := VInt 5; a_value := VInt 1; a_expire := None; a_tag := None; a_delta := 0;
+                            a_idefault := None; a_now := 0 |};
+              FKeyed MGet {| a_key := VStr [97]; a_value := VInt 0; a_expire := None; a_tag := None; a_delta := 0;
+                            a_idefault := None; a_now := 1 |}] in
+  forall k1 k2, In k1 (history_keys ops) -> In k2 (history_keys ops) -> k1 = k2 ->
+                key_eq k1 k2 = true /\ route_excluded k1 k2 = false.
+Proof. cbn. intros k1 k2 [<-|[<-|[]]] _ <-; split; reflexivity. Qed.
+
 (* ---------------- size limit ---------------- *)
 Local Open Scope Q_scope.
 
@@ -719,5 +728,5 @@ Proof.
   apply inject_Z_nonzero. exact Hn.
 Qed.
 
-Example limit_default_8 : shard_limit None 8 == inject_Z 134217728.
-Proof. vm_compute. reflexivity. Qed.
+Example limit_default_8 : shard_limit None 8 == inject_Z 134217728 /\ (8 | default_size_limit)%Z.
+Proof. split; [vm_compute; reflexivity|exists 134217728%Z; reflexivity]. Qed.
